@@ -153,6 +153,11 @@ INTERNAL = re.compile(r"^(start|body|dead|if_true|if_false|if_join|switch_\w+|wh
 
 
 def detail_of(ob, at, u, fname):
+    f0 = next((g for g in u.mod["funcs"] if g["name"] == fname), None) if u.mod else None
+    if f0 and f0["blocks"] and f0["blocks"][0]["jump"] is not None and f0["blocks"][0]["label"].startswith("start."):
+        # @start never carries a terminator in cproc's output (it falls through into @body) unless the length expression
+        # of a variably modified parameter ended it; the allocs hoisted into it afterwards then land in a @dead block
+        return "start-block-terminated"
     if ob == "JumpsTargetExisting":
         base = at[0].rsplit(".", 1)[0] if at else ""
         src = u.src if isinstance(u.src, str) else ""
@@ -354,6 +359,10 @@ PINNED = [   # the minimal failing input of every known finding (so that the fin
                    "int h(int n, int m, int c) { typedef int T[n][m]; int r = 0; while (c--) { T a; a[0][0] = c; r += a[0][0]; } { T b; r += (int)sizeof b; } return r; }\n"
                    "int k(int n, int c, void *v) { typedef int (*P)[n]; switch (c) { case 1: { P q = v; return (int)sizeof *q; } default: { P r = v; return (*r)[0]; } } }\n"
                    "int l(int n, int m, int c, void *v) { typedef int (*P)[n][m]; for (int i = 0; i < c; i++) { P q = v; c -= (int)sizeof **q; } { P r = v; return (int)sizeof *r; } }\n"),
+    # variably modified parameters whose length expressions contain control flow, with later block-scope declarations
+    ("vm-param-control-flow", "int f(int n, int c, int (*p)[c ? n : 1]) { return sizeof(*p); }\n"
+                              "int g(int n, int c, int (*p)[(n && c) + 1][(n || c) + 1]) { int loc = n; { int arr[3] = {1, 2, 3}; loc += arr[1]; } return (int)sizeof(*p) + loc; }\n"
+                              "int h(int n, int c, int a[c ? n : 1][n]) { long t = 0; while (c--) { int z = c; t += z; } return (int)sizeof(a[0]) + (int)t; }\n"),
     # wide arrays filled exactly by a wide literal (DataSize through the H6-lite sizes): top level, member, 2-D row
     ("wide-exact-fit", "unsigned short a[2] = u\"ab\"; unsigned b[1] = U\"a\"; struct { unsigned short s[2]; char c; } c = {u\"ab\", 1};\n"
                        "unsigned short d[2][2] = {u\"ab\", u\"c\"}; unsigned e[2][1] = {U\"a\", U\"b\"}; unsigned short f[3] = u\"ab\";\n"
@@ -797,7 +806,7 @@ MAIN_DEF = "int main(void) { int z = 0; struct S s = gs(1); return fn(1, 2, 3.0,
 def gen_render(c, full):
     """full: the helper functions are defined in the unit (CallArgsMatchCallee can then match the calls against
     their signatures); otherwise only declared, which keeps the judged module small"""
-    g = "\n".join(x["decl"] for x in c["globs"])
+    g = "\n".join(x["decl"] for x in c["globs"]) + "\n" + c.get("vm", "")
     body = " ".join(t for t in c["toks"] if t)
     return (PROLOGUE.replace("/*HELPERS*/", HELPER_DEFS if full else HELPER_DECLS).replace("/*MAIN*/", MAIN_DEF if full else "")
             .replace("/*GLOBALS*/", g).replace("/*BODY*/", body))
